@@ -367,11 +367,17 @@ class MappingCheckOnly(DeserializationMethod):
             raise bad_type(data, dict)
         item_errors: Optional[ErrorDict] = None
         for key, value in data.items():
+            error: Optional[ValidationError] = None
             try:
                 self.key_method.deserialize(key)
+            except ValidationError as err:
+                error = err
+            try:
                 self.value_method.deserialize(value)
             except ValidationError as err:
-                item_errors = set_child_error(item_errors, key, err)
+                error = merge_errors(error, err)
+            if error is not None:
+                item_errors = set_child_error(item_errors, key, error)
         validate_constraints(data, self.constraints, item_errors)
         return data
 
@@ -388,12 +394,21 @@ class MappingMethod(DeserializationMethod):
         item_errors: Optional[ErrorDict] = None
         items: dict = {}
         for key, value in data.items():
+            error: Optional[ValidationError] = None
+            new_key: Any = None
+            new_value: Any = None
             try:
-                items[self.key_method.deserialize(key)] = self.value_method.deserialize(
-                    value
-                )
+                new_key = self.key_method.deserialize(key)
             except ValidationError as err:
-                item_errors = set_child_error(item_errors, key, err)
+                error = err
+            try:
+                new_value = self.value_method.deserialize(value)
+            except ValidationError as err:
+                error = merge_errors(error, err)
+            if error is not None:
+                item_errors = set_child_error(item_errors, key, error)
+            else:
+                items[new_key] = new_value
         validate_constraints(data, self.constraints, item_errors)
         return items
 
